@@ -39,21 +39,35 @@ V_QUICK = [("G", 5, False), ("G", 0, False), ("G", 5, True), ("H", 5, False), ("
            ("L", 64, False), ("L", 1024, False), ("L", 4096, False), ("L", 4096, True)]
 V_MORE = [("H", 5, True), ("T", 0, True), ("N", 0, True), ("P", 3, True), ("B", 2, False), ("B", 4, False), ("U", 3, False),
           ("L", 1024, True)]
+# Connection spellings (a dimension of the closing / non-closing request G5) and content + bodiless status, combined with
+# this base set in pipelines of two
+V_SPELL = [("G", 5, True, 2), ("G", 5, True, 3), ("G", 5, True, 4), ("G", 5, True, 5), ("G", 5, True, 6), ("G", 5, False, 7),
+           ("G", 5, False, 8), ("P", 3, True, 5)]
+V_STATUS = [("S204", 5, False), ("S304", 5, False), ("HS204", 5, False), ("HS304", 5, False), ("S304", 5, True, 2)]
+V_BASE = [("G", 5, False), ("P", 3, False), ("T", 0, False), ("N", 0, False), ("H", 5, False)]
 # pipelines of three requests are drawn from this subset in the quick tier
 V_SMALL = [("G", 5, False), ("G", 5, True), ("H", 5, False), ("P", 3, False), ("T", 0, False), ("N", 0, False), ("B", 1, False),
            ("U", 1, False), ("L", 1024, False)]
 
 METHOD = {"G": "GET", "H": "HEAD", "P": "POST", "C": "POST", "T": "GET", "R": "GET", "N": "GET", "M": "DELETE", "O": "OPTIONS",
-          "B": "GET", "U": "POST", "L": "GET"}
+          "B": "GET", "U": "POST", "L": "GET", "S204": "GET", "S304": "GET", "HS204": "HEAD", "HS304": "HEAD"}
+# spellings of the Connection field (sp of HttpPipeline.tla); 1..6 ask for a close
+SPELL = {0: None, 1: b"close", 2: b"Close", 3: b"CLOSE", 4: b"cLoSe", 5: b"keep-alive, Close", 6: b" \t close  ", 7: b"Keep-Alive",
+         8: b"keep-alive"}
 
 
 def render_request(r, xid, delay_us=None, hot=False):
     k, n, close = r["k"], r["n"], r["close"]
     fill = chr(ord("a") + xid % 10).encode()
-    common = b"Host: x\r\nX-Id: %d\r\n" % xid + (b"Connection: close\r\n" if close else b"") + \
+    sp = r.get("sp", 1 if close else 0)
+    if close != (1 <= sp <= 6):
+        raise vf.Infra("request record: close flag and Connection spelling disagree: %r" % (r,))
+    common = b"Host: x\r\nX-Id: %d\r\n" % xid + (b"Connection: %s\r\n" % SPELL[sp] if SPELL[sp] is not None else b"") + \
         (b"X-Delay: %d\r\n" % delay_us if delay_us else b"") + (b"X-Hot: 1\r\n" if hot else b"")
     if k == "L":
         return b"GET /big/%d HTTP/1.1\r\n" % n + common + b"\r\n"
+    if k in ("S204", "S304", "HS204", "HS304"):
+        return b"%s /st/%s/%d HTTP/1.1\r\n" % (METHOD[k].encode(), k[-3:].encode(), n) + common + b"\r\n"
     if k in ("G", "H"):
         return b"%s /ok/%d HTTP/1.1\r\n" % (METHOD[k].encode(), n) + common + b"\r\n"
     if k == "P":
@@ -102,7 +116,8 @@ def mc(ck, name, variants, maxlen, devs=(), export=False, workers=3, invs=None):
     os.makedirs(d, exist_ok=True)
     with open(os.path.join(d, "MCPipe.tla"), "w") as f:
         f.write("---- MODULE MCPipe ----\nEXTENDS HttpPipeline\nMCVariants == {%s}\n====\n" % ", ".join(
-            '[k |-> "%s", n |-> %d, close |-> %s]' % (k, n, "TRUE" if c else "FALSE") for k, n, c in variants))
+            '[k |-> "%s", n |-> %d, close |-> %s, sp |-> %d]' % (v[0], v[1], "TRUE" if v[2] else "FALSE", v[3] if len(v) > 3 else (1 if v[2] else 0))
+            for v in variants))
     cfg = os.path.join(d, "MCPipe.cfg")
     vf.write_cfg(cfg, constants={"Variants": "<- MCVariants", "MaxLen": maxlen, "Workers": workers,
                                  "Dev_CompletionOrder": "Dev_CompletionOrder" in devs,
@@ -134,7 +149,7 @@ def cases_of(r):
 
 def nontrivial(case):
     ks = [r["k"] for r in case["pipe"]]
-    return len(ks) > 1 or ks[0] in ("H", "C", "T", "R", "B", "U", "L") or case["pipe"][0]["close"]
+    return len(ks) > 1 or ks[0] not in ("G", "P", "N", "M", "O") or case["pipe"][0]["close"]
 
 
 def trace_cfg(ck, allowed, evalpass=False):
@@ -343,7 +358,7 @@ def judge(ck, cases, lines, out_path, name, retry=True):
             ck.more_violations = getattr(ck, "more_violations", 0) + len(rejected) - len(chosen)
 
 
-GATED = ("G", "H", "P", "C", "T", "R", "L")
+GATED = ("G", "H", "P", "C", "T", "R", "L", "S204", "S304", "HS204", "HS304")
 
 
 def soft(ev, case):
@@ -371,8 +386,8 @@ def explain(ev):
     return "unexplained fact"
 
 
-def R(k, n=0, close=False):
-    return {"k": k, "n": n, "close": close}
+def R(k, n=0, close=False, sp=None):
+    return {"k": k, "n": n, "close": close, "sp": (1 if close else 0) if sp is None else sp}
 
 
 def resp(for_, st, cl, bl=None, fill=True, alien=False):
@@ -396,6 +411,10 @@ def self_test_trace(ck):
         "large": big,
         "closing": [{"e": "Begin", "reqs": [R("G", 5, True), R("G", 5)]}, rel(1), resp(1, 200, 5), end(closed=True, invoked=[1, 2])],
         "unparsable": [{"e": "Begin", "reqs": [R("U", 4)]}, end(closed=True)],
+        "bodiless status, no octets": [{"e": "Begin", "reqs": [R("S304", 5), R("G", 5)]}, rel(1), resp(1, 304, 5, 0), rel(2), resp(2, 200, 5), end(invoked=[1, 2])],
+        "bodiless status, self-consistent": [{"e": "Begin", "reqs": [R("S204", 5), R("HS204", 5)]}, rel(1), resp(1, 204, 5, 5), rel(2), resp(2, 204, -1, 0),
+                                             end(invoked=[1, 2])],
+        "close spelled Close": [{"e": "Begin", "reqs": [R("G", 5, True, 5), R("G", 5)]}, rel(1), resp(1, 200, 5), end(closed=True, invoked=[1, 2])],
         "head": [{"e": "Begin", "reqs": [R("H", 5), R("T")]}, rel(1), resp(1, 200, 5, 0), rel(2), resp(2, 500, 21, 21, False), end(invoked=[1, 2])],
     }
     reversed_two = [two[0], rel(2), resp(2, 200, 5), rel(1), resp(1, 200, 5), end(invoked=[1, 2])]
@@ -414,6 +433,12 @@ def self_test_trace(ck):
         "handler entered for a wrapped Content-Length": [{"e": "Begin", "reqs": [R("U", 4)]}, resp(1, 200, 3), end(closed=False, invoked=[1])],
         "handler entered, then closed": [{"e": "Begin", "reqs": [R("U", 5)]}, end(closed=True, invoked=[1])],
         "two responses for one unparsable message": [{"e": "Begin", "reqs": [R("U", 5)]}, resp(0, 400, 11), resp(0, 400, 11), end(closed=True)],
+        "Connection: Close not followed by a close": [{"e": "Begin", "reqs": [R("G", 5, True, 2), R("G", 5)]}, rel(1), resp(1, 200, 5), rel(2),
+                                                      resp(2, 200, 5), end(invoked=[1, 2])],
+        "304 without Content-Length followed by body octets": [{"e": "Begin", "reqs": [R("S304", 5), R("G", 5)]}, rel(1), resp(1, 304, -1, 0), rel(2),
+                                                               end(left=130, garbage=True, invoked=[1, 2])],
+        "204 with a Content-Length that is not the body": [{"e": "Begin", "reqs": [R("S204", 5)]}, rel(1), resp(1, 204, 5, 3), end(invoked=[1])],
+        "HEAD 304 with body": [{"e": "Begin", "reqs": [R("HS304", 5)]}, rel(1), resp(1, 304, 5, 5), end(invoked=[1])],
         "small response cut by the close": [{"e": "Begin", "reqs": [R("G", 5, True)]}, rel(1), end(closed=True, left=90, invoked=[1], pfor=1, pcl=5, pgot=2)],
         "large response cut, connection left open": [{"e": "Begin", "reqs": [R("L", 4096)]}, rel(1),
                                                      end(closed=False, left=300000, invoked=[1], pfor=1, pcl=4194304, pgot=299900)],
@@ -479,15 +504,17 @@ def run(ck):
         fd4 = ex.submit(mc, ck, "dev_first", V_SMALL, 2, ("Dev_ExtractOnlyFirst",))
         fd5 = ex.submit(mc, ck, "dev_trunc", V_SMALL + [("L", 1024, True)], 2, ("Dev_CloseDropsQueued",))
         f2 = ex.submit(mc, ck, "len2", variants, 2, (), True)
+        f2b = ex.submit(mc, ck, "len2b", V_BASE + V_SPELL + V_STATUS + (variants if thorough else []), 2, (), True)
         f3 = ex.submit(mc, ck, "len3", variants if thorough else V_SMALL, 3, (), True)
         fd1 = ex.submit(mc, ck, "dev_order", V_SMALL, 2, ("Dev_CompletionOrder",))
         fd2 = ex.submit(mc, ck, "dev_wait", V_SMALL, 2, ("Dev_BadFramingWaits",))
         fw = ex.submit(mc, ck, "workers1", V_SMALL, 3, (), False, 1)
         fb.result()
         r2, r3, rd1, rd2, rw = f2.result(), f3.result(), fd1.result(), fd2.result(), fw.result()
+        r2b = f2b.result()
         rd3, rd4, rd5 = fd3.result(), fd4.result(), fd5.result()
         fst.result()
-    for nm, r in (("len<=2", r2), ("len<=3", r3), ("one worker", rw)):
+    for nm, r in (("len<=2", r2), ("len<=2, Connection spellings / bodiless statuses", r2b), ("len<=3", r3), ("one worker", rw)):
         if r.error:
             raise vf.Infra("TLC failed on HttpPipeline (%s): %s" % (nm, r.error))
         ck.states += r.distinct
@@ -517,14 +544,17 @@ def run(ck):
     ck.transitions += rd1.generated + rd2.generated + rd3.generated + rd4.generated
     ck.exhaustive = True
     seen, cases = set(), []
-    for c in cases_of(r2) + cases_of(r3):
+    for c in cases_of(r2) + cases_of(r2b) + cases_of(r3):
         key = json.dumps(c, sort_keys=True)
         if key not in seen:
             seen.add(key)
             cases.append(c)
     if len(cases) < 100:
         raise vf.Infra("generator produced only %d cases" % len(cases))
-    for cls in ("U", "B", "H", "T", "C", "L"):
+    for sp in range(2, 9):
+        if not any(any(r.get("sp") == sp for r in c["pipe"][:-1]) for c in cases):
+            raise vf.Infra("generator produced no pipeline with Connection spelling %d followed by another request" % sp)
+    for cls in ("U", "B", "H", "T", "C", "L", "S204", "S304", "HS204", "HS304"):
         if not any(any(r["k"] == cls for r in c["pipe"]) for c in cases):
             raise vf.Infra("generator produced no pipeline with request class " + cls)
     if not any(c["order"] != sorted(c["order"]) for c in cases):
